@@ -106,6 +106,10 @@ struct GOpts {
   // value text must additionally avoid these characters (C07 uses it)
   std::string extra_forbidden_value;
   std::string extra_forbidden_key;
+  std::string extra_forbidden_cont;   // continuation text
+  bool cont_single_token = false;     // continuation body is one token without blanks
+  bool multiline_no_trail = false;    // an entry with continuation lines carries no trailing comment at all
+  std::string custom_D, custom_C;     // override the table (single characters for C07)
 };
 
 // ---------------------------------------------------------------- text atoms
@@ -201,6 +205,13 @@ inline GFile gen_file(Src &s, const GOpts &o) {
   f.D = DELIMS[f.di].d;
   f.C = COMMENTS[f.ci];
   f.cls = DELIMS[f.di].cls;
+  if (!o.custom_C.empty()) f.C = o.custom_C;
+  if (!o.custom_D.empty()) {
+    f.D = o.custom_D;
+    bool b = false, nb = false;
+    for (char c : f.D) (c == ' ' || c == '\t' ? b : nb) = true;
+    f.cls = b && nb ? DC_MIXED : b ? DC_BLANK : DC_NONBLANK;
+  }
   const std::string &D = f.D, &C = f.C;
   std::string dblank, dnon;
   for (char c : D) (c == ' ' || c == '\t' ? dblank : dnon) += c;
@@ -211,7 +222,7 @@ inline GFile gen_file(Src &s, const GOpts &o) {
   Alphabet a_sec = make_alphabet(C + "[]\"");
   Alphabet a_val = make_alphabet(C + o.extra_forbidden_value);                   // plain value
   Alphabet a_q = make_alphabet("\"");                                            // inside quotes: anything but the quote at ends (inner quotes added explicitly)
-  Alphabet a_cont = make_alphabet(D + C + o.extra_forbidden_value);              // continuation text
+  Alphabet a_cont = make_alphabet(D + C + o.extra_forbidden_value + o.extra_forbidden_cont);  // continuation text
   Alphabet a_ctext = make_alphabet(C);                                           // tame comment text
   Alphabet a_ttext = make_alphabet(C + "\"");                                    // trailing comment text
 
@@ -355,7 +366,7 @@ inline GFile gen_file(Src &s, const GOpts &o) {
       add_line(l);
       prev_entryish = true;
       // ---------------- continuation lines
-      if (can_cont && f.cls != DC_NONE && !e.quoted && !e.verbatim_quote) {
+      if (can_cont && f.cls != DC_NONE && !e.quoted && !e.verbatim_quote && !(o.multiline_no_trail && l.has_trail)) {
         for (;;) {
           auto cont_span = s.span();
           if (!(nlines < o.max_lines && s.chance(18))) break;
@@ -365,18 +376,18 @@ inline GFile gen_file(Src &s, const GOpts &o) {
           c.entry = l.entry;
           std::string ind2 = gen_blanks(s, 1, 3);
           std::string body;
-          if (f.cls == DC_BLANK)
+          if (f.cls == DC_BLANK || o.cont_single_token)
             body = gen_token(s, a_cont, gen_len(s, 1, o.long_fields), "[");
           else
             body = gen_text(s, a_cont, gen_len(s, 1, o.long_fields), "[");
           std::string stored = ind2 + body;
           c.text = stored;
-          if (f.cls == DC_NONBLANK && s.chance(12)) {
+          if (f.cls == DC_NONBLANK && !o.cont_single_token && s.chance(12)) {
             std::string tb = gen_blanks(s, 1, 2);
             c.text += tb;
             stored += tb;
           }
-          if (f.cls == DC_NONBLANK && o.trail && s.chance(30)) {
+          if (f.cls == DC_NONBLANK && o.trail && !o.multiline_no_trail && s.chance(30)) {
             char cc = C[s.below((uint32_t)C.size())];
             std::string gap = gen_blanks(s, 0, 2);
             std::string tt = gen_text(s, a_ttext, gen_len(s, 0, false));
